@@ -48,7 +48,10 @@ REPS = ["nd2_float", "nd2_int", "df_int", "df_strcols", "df_offset", "df_step", 
         # frame assembled column by column (one block per column), a frame mixing int64 and float64
         "nd2_fortran", "nd2_strided_int", "nd2_readonly", "df_blocks", "df_mixed_dtypes",
         # column names that coincide with the names the library uses in its own outputs
-        "df_reserved_names"]
+        "df_reserved_names",
+        # a datetime index with repeated stamps (several readings per second): still a datetime index, accepted by
+        # the input validation; the rows are the same rows
+        "df_datetime_ties"]
 REPS_P1 = ["series_float", "series_named_int", "nd1_float", "series_datetime", "series_named_labels"]
 
 
@@ -105,6 +108,8 @@ def represent(X, rep, offset=0):
         return pd.DataFrame(Xf, index=idx("datetime"), columns=cols)
     if rep == "df_period":
         return pd.DataFrame(Xf, index=idx("period"), columns=cols)
+    if rep == "df_datetime_ties":
+        return pd.DataFrame(Xf, index=idx("datetime_ties"), columns=cols)
     if rep == "df_datetime_str_int":
         return pd.DataFrame(X.astype(np.int64), index=idx("datetime"), columns=scols)
     if rep == "series_float":
@@ -128,6 +133,8 @@ def index_semantics(rep):
         return "datetime"
     if rep == "df_period":
         return "period"
+    if rep == "df_datetime_ties":
+        return "datetime_ties"
     return "range0"
 
 
@@ -314,6 +321,8 @@ def detector_case(ctx, r):
                 continue
             ref = base
             if entry in ("update", "update_predict"):
+                if index_semantics(rep) not in upd_ref:
+                    continue  # tied labels: what "the same label" replaces is not defined by the statement
                 ref = upd_ref[index_semantics(rep)]
                 # ndarray / default-index frames: overlay semantics, compared with the baseline frame
                 ctx.stat("update_pairs")
